@@ -264,6 +264,58 @@ pub fn run(ctx: &mut Ctx) {
         ctx.rep.evaluations += 16;
         ctx.rep.sample(J::obj(vec![("family", J::s("token")), ("function", J::s("Version::try_from")), ("input", J::s("HTTP/1.1 with byte 7 replaced by every value 0..255"))]));
     }
+    // ---- every status code written through sinks of every kind (a Vec; a sink that only implements `write`
+    // and takes 1, 2, 5 bytes per call): the status line carries the code's own three digits every time
+    if ctx.shard == 0 {
+        struct Narrow {
+            out: Vec<u8>,
+            k: usize,
+        }
+        impl std::io::Write for Narrow {
+            fn write(&mut self, b: &[u8]) -> std::io::Result<usize> {
+                let n = self.k.min(b.len());
+                self.out.extend_from_slice(&b[..n]);
+                Ok(n)
+            }
+            fn flush(&mut self) -> std::io::Result<()> {
+                Ok(())
+            }
+        }
+        let codes: [(micro_http::StatusCode, &str); 11] = [
+            (micro_http::StatusCode::Continue, "100"),
+            (micro_http::StatusCode::OK, "200"),
+            (micro_http::StatusCode::NoContent, "204"),
+            (micro_http::StatusCode::BadRequest, "400"),
+            (micro_http::StatusCode::Unauthorized, "401"),
+            (micro_http::StatusCode::NotFound, "404"),
+            (micro_http::StatusCode::MethodNotAllowed, "405"),
+            (micro_http::StatusCode::PayloadTooLarge, "413"),
+            (micro_http::StatusCode::InternalServerError, "500"),
+            (micro_http::StatusCode::NotImplemented, "501"),
+            (micro_http::StatusCode::ServiceUnavailable, "503"),
+        ];
+        for (code, digits) in codes.iter() {
+            for (vi, v) in [micro_http::Version::Http10, micro_http::Version::Http11].iter().enumerate() {
+                for k in [usize::MAX, 1, 2, 5, 8, 9, 12] {
+                    ctx.begin();
+                    ctx.rep.evaluations += 1;
+                    ctx.rep.count("status_lines_serialized");
+                    let r = micro_http::Response::new(*v, *code);
+                    let mut sink = Narrow { out: Vec::new(), k };
+                    let res = guarded(|| r.write_all(&mut sink));
+                    let want = format!("HTTP/1.{} {} \r\n", vi, digits);
+                    if !matches!(res, Ok(Ok(()))) || !sink.out.starts_with(want.as_bytes()) {
+                        ctx.rep.violation(
+                            "C16:status-line",
+                            format!("status {} written through a sink taking {} bytes per call: result {:?}, bytes start with {:?}, expected {:?}", digits, k, res.map(|r| r.map_err(|e| e.to_string())), crate::util::show(&sink.out[..sink.out.len().min(24)]), want),
+                            J::obj(vec![("family", J::s("status-line")), ("code", J::s(digits)), ("k", J::u(k.min(1 << 20) as u64))]),
+                        );
+                        bad += 1;
+                    }
+                }
+            }
+        }
+    }
     // ---- all URIs of length <= 9 (thorough) / 7 (quick) over the 9-symbol alphabet
     let max_len = if quick { 7 } else { 10 };
     let mut idx = 0u64;
